@@ -27,7 +27,8 @@ pub const DEF: PropDef = PropDef {
 is presented as the next bits of a stream, after every buffer state of every reader type allowed for that table (buffered readers: \
 bits_in_buffer 0..2W-1 incl. more than one word buffered; unbuffered: every bit offset), followed by zeros / ones / random bits; from that one \
 state every table-option combination (gamma on/off/default; delta 4 combinations + default; zeta_3 on/off/default and read_zeta(3)), the public \
-helpers read_table_*/len_table_* and a table-free read are each run on a clone and must return the reference decoder's value, leave the reader \
+helpers read_table_*/len_table_* a table-free read, and a run of seven consecutive table-driven reads (the first on the presented window, the others gamma / zeta_3 \
+reads of whatever codewords the continuation bits form) are each run on a clone and must return the reference decoder's value, leave the reader \
 at the reference end of the codeword, and read the same sentinel; a None from a helper must leave the reader untouched. Windows that no in-domain \
 codeword can produce are counted as unreachable. Strict tail: all values below 1100 (and larger) placed so that the codeword ends in the last \
 word of a strict stream at every alignment, so that the look-ahead crosses the end. Writer cases: all values 0..=WRITE_MAX+64 and around powers \
@@ -38,6 +39,7 @@ boundary or the end of a strict stream, or more than one word was buffered; dist
     assumptions: &["reference decoder", "D7: (reader, table) pairs for which construction printed the DANGER diagnostic are excluded (measured from this tree)"],
     run,
     replay,
+    from_bytes: None,
 };
 
 fn tab_of(code: Code) -> &'static str {
@@ -137,6 +139,14 @@ pub fn check_case(c: &Case, env: &Env) -> CheckResult {
     Ok(o)
 }
 
+fn calls_table_on(code: Code) -> Call {
+    match code {
+        Code::Gamma => Call::Gamma(Tb::On),
+        Code::Delta => Call::Delta(Tb2::T(true, true)),
+        _ => Call::Zeta3(Tb::On),
+    }
+}
+
 /// All the reads to try from one state: each on its own clone.
 fn option_forks(code: Code) -> Vec<ROp> {
     let mut v = vec![];
@@ -147,6 +157,17 @@ fn option_forks(code: Code) -> Vec<ROp> {
     }
     for call in calls {
         let mut sub = vec![ROp::Pos, ROp::Code(call)];
+        sub.extend_from_slice(&sentinel);
+        v.push(ROp::Fork(sub));
+    }
+    // several table-driven reads in a row (every one may refill the buffer by look-ahead): the codes after
+    // the first are "free" gamma / zeta_3 reads over the continuation bits
+    for first in [calls_table_on(code), Call::plain(code)] {
+        let mut sub = vec![ROp::Code(first)];
+        for k in 0..6 {
+            sub.push(ROp::Code(if k % 2 == 0 { Call::Gamma(Tb::On) } else { Call::Zeta3(Tb::On) }));
+            sub.push(ROp::Pos);
+        }
         sub.extend_from_slice(&sentinel);
         v.push(ROp::Fork(sub));
     }
@@ -204,7 +225,7 @@ fn run(ctx: &Ctx, env: &Env) -> Stats {
                         let states: Vec<usize> = if ctx.quick() {
                             // every state for the small readers, a stride (always incl. the extremes) for the wide ones
                             let n = n_states(r);
-                            let step = if n > 64 { 5 } else if n > 32 { 3 } else { 1 };
+                            let step = if n > 64 { 2 } else { 1 };
                             (0..n).step_by(step).chain([n - 1, w.saturating_sub(1), w.min(n - 1)]).collect()
                         } else {
                             (0..n_states(r)).collect()
@@ -221,9 +242,14 @@ fn run(ctx: &Ctx, env: &Env) -> Stats {
                                     let mut items = prefix_items(used, (idx * 131 + s) as u64);
                                     items.push(Item::Window { code, bits: idx as u64, n: rb as u8 });
                                     let img = Img::Items { items, tail, tail_bits: 160, seed: idx as u64 ^ ctx.seed };
-                                    let mut ops = pre.clone();
+                                    // the buffer state is reached by reads on even indices and by skips on odd ones
+                                    let mut ops: Vec<ROp> = if idx % 2 == 1 {
+                                        pre.iter().map(|o| match o { ROp::Bits(n) => ROp::Skip(*n as u32), o => o.clone() }).collect()
+                                    } else {
+                                        pre.clone()
+                                    };
                                     ops.extend(forks.iter().cloned());
-                                    part.check(&Case::Read(RCase { cfg, img, cut_words: None, ops }), &f);
+                                    part.check(&Case::Read(RCase { cfg, img, cut_words: None, ops, free: true }), &f);
                                 }
                             }
                         }
@@ -273,7 +299,7 @@ fn run(ctx: &Ctx, env: &Env) -> Stats {
                                         o2 => ops.push(o2.clone()),
                                     }
                                 }
-                                part.check(&Case::Read(RCase { cfg, img, cut_words: None, ops }), &f);
+                                part.check(&Case::Read(RCase { cfg, img, cut_words: None, ops, free: false }), &f);
                             }
                         }
                     }
